@@ -93,8 +93,8 @@ func (s *stubFn) ProcessBuiltinFunction(_, _ vmcommon.UserAccountHandler, _ *vmc
 	return nil, nil
 }
 func (s *stubFn) SetNewGasConfig(_ *vmcommon.GasCost) {}
-func (s *stubFn) IsActive() bool                       { return true }
-func (s *stubFn) IsInterfaceNil() bool                 { return s == nil }
+func (s *stubFn) IsActive() bool                      { return true }
+func (s *stubFn) IsInterfaceNil() bool                { return s == nil }
 
 // MapOp is one operation of an H1 program.
 type MapOp struct {
@@ -575,7 +575,9 @@ func (litePayable) IsPayable([]byte) (bool, error) { hook("IsPayable"); return t
 func (litePayable) IsInterfaceNil() bool           { return false }
 
 // Notifier records the epoch subscribers.
-type Notifier struct{ Subs []vmcommon.EpochSubscriberHandler }
+type Notifier struct {
+	Subs []vmcommon.EpochSubscriberHandler
+}
 
 func (n *Notifier) RegisterNotifyHandler(h vmcommon.EpochSubscriberHandler) {
 	n.Subs = append(n.Subs, h)
@@ -598,7 +600,9 @@ func Schedule(base uint64) map[string]map[string]uint64 {
 
 // Lite is a container built by the real factory over the share-nothing environment.
 type Lite struct {
-	Factory   interface{ GasScheduleChange(map[string]map[string]uint64) }
+	Factory interface {
+		GasScheduleChange(map[string]map[string]uint64)
+	}
 	Container vmcommon.BuiltInFunctionContainer
 	Notifier  *Notifier
 }
